@@ -74,8 +74,13 @@ def plan(ch, tier):
         ops.append({"op": k, "dt": ch.pick("dt", [0.5, 0.0, 0.05, 0.3, 1.0, 2.0, 2.1, 3.1, 5.0, 12.0]), "pick": ch.choice("pick", 3)})
     patches = {"game": {"balls_per_game": ch.pick("bpg", [1, 2, 3])}}
     # reactive requests: another ball is requested a moment after some device kicked (while its ball is under way)
-    react = {"on": ch.flag("react_add", 0.35), "delay": ch.pick("react_delay", [0.2, 0.1, 0.5, 1.0]),
+    chain = topo in ("t7", "t2", "t3")      # devices that feed another device which ejects onwards
+    react = {"on": ch.flag("react_add", 0.6 if chain else 0.3), "delay": ch.pick("react_delay", [0.2, 0.1, 0.5, 1.0]),
              "max": 1 + ch.choice("react_max", 3)}
+    if chain and react["on"]:
+        # make fall-backs likely in these runs: the interesting window is "request evaluated while the device's own
+        # ball is under way and then comes back"
+        wk["p_eject_fail"] = ch.pick("p_eject_fail_chain", [0.3, 0.5])
     return {"knobs": knobs, "world": wk, "topo": topo, "nballs": nb, "ops": ops, "patches": patches, "react": react}
 
 
